@@ -407,6 +407,10 @@ func c14ValName(i int) string {
 func c14XMLMuts(fix *c14Fixture, level, part string, data []byte, thorough bool) []*c14Mut {
 	var ms []*c14Mut
 	elems, texts := c14ScanXML(data)
+	// parts the library never decodes (it only stores and re-emits their bytes): structural
+	// mutations in full, every sixth boundary value
+	lp := strings.ToLower(part)
+	opaque := strings.Contains(lp, "charts/style") || strings.Contains(lp, "charts/colors") || strings.Contains(lp, "charts/chart")
 	add := func(kind string, a, b, val int, path string) {
 		ms = append(ms, &c14Mut{fix: fix, level: level, part: part, kind: kind, a: a, b: b, val: val, path: path})
 	}
@@ -427,7 +431,7 @@ func c14XMLMuts(fix *c14Fixture, level, part string, data []byte, thorough bool)
 			add("atrm", at.s, at.e, 0, p)
 			add("atdup", at.s, at.e, 0, p)
 			for vi := range c14Values {
-				if c14Values[vi] == string(data[at.vs:at.ve]) {
+				if c14Values[vi] == string(data[at.vs:at.ve]) || (opaque && vi%6 != 0) {
 					continue
 				}
 				add("atval", at.vs, at.ve, vi, p)
